@@ -177,3 +177,53 @@ def model_event(yaml, e, rnd=None):
 def model_opts(o):
     return dict(canonical=bool(o['canonical']), indent=o['best'], width=o['width'], allow_unicode=bool(o['uni']),
                 line_break=LBNAME[tuple(o['lb'])])
+
+
+def attr_ok(hist):
+    """the attribute half of well-formedness (mirror of BadAttr in MC_Emitter.tla) - classifies the INPUT only"""
+    for e in hist:
+        k = e['k']
+        if e['a'] in ('bad', 'empty') or (k == 'Alias' and e['a'] == '') or e['t'] == 'empty':
+            return False
+        if k == 'Scalar' and e['t'] == '' and not e['i'][0] and not e['i'][1]:
+            return False
+        if k in ('SequenceStart', 'MappingStart') and e['t'] == '' and not e['i'][0]:
+            return False
+        if k == 'DocumentStart' and (e['ver'] == '2.0' or e['tg'] in ('badh', 'nop')):
+            return False
+    return True
+
+
+# ------------------------------------------------------------------ dump iteration with a textual pre-filter
+def _raw_run(args):
+    import re
+    from .. import tlaval
+    fn, path, a, b, extra, keep = args
+    with open(path) as f:
+        f.seek(a)
+        buf = f.read(b - a)
+    rx = re.compile(keep)
+    chunks = [c for c in re.split(r'(?m)^State \d+:\n', buf) if c.strip()]
+    names = set()
+    for c in chunks:
+        mm = re.search(r'trail \|-> \{([^}]*)\}', c)
+        if mm:
+            names.update(re.findall(r'"([^"]+)"', mm.group(1)))
+    return len(chunks), fn((tlaval._state([c]) for c in chunks if rx.search(c)), extra), names
+
+
+def pmap_raw(fn, path, extra, keep, procs=16, chunks=64):
+    """like mbt.pmap, but only states whose dump text matches `keep` are parsed; -> (number of states seen, results, method names found
+    in the `trail` field of all states)"""
+    import multiprocessing as mp
+    from .. import mbt
+    parts = mbt.split_dump(path, chunks)
+    with mp.Pool(procs) as pool:
+        res = pool.map(_raw_run, [(fn, path, a, b, extra, keep) for a, b in parts], chunksize=1)
+    return sum(x[0] for x in res), [x[1] for x in res], set().union(*[x[2] for x in res])
+
+
+def ev_repr(e):
+    """all attributes of an event (repr() of the event classes omits tags, version, style, flow_style)"""
+    d = {k: v for k, v in vars(e).items() if k not in ('start_mark', 'end_mark') and v is not None}
+    return '%s(%s)' % (type(e).__name__[:-5], ', '.join('%s=%r' % kv for kv in sorted(d.items())))
